@@ -202,7 +202,14 @@ func (its *WiredDatatype) updateStateOfDatatype(
 		}
 
 		its.state = model.StateOfDatatype_SUBSCRIBED
-		its.id = ppp.DUID
+		if its.id != ppp.DUID {
+			its.id = ppp.DUID
+			// the rollback context still names the provisional DUID: capture it again,
+			// or a failed transaction would bring the provisional DUID back
+			if err = its.ResetTransaction(); err != nil {
+				return oldState, its.state, err
+			}
+		}
 
 		err = its.wire.OnChangeDatatypeState(its.Datatype, its.state)
 	case model.StateOfDatatype_SUBSCRIBED:
